@@ -186,7 +186,7 @@ func packSideEntries(p *Prog) []*ssa.Function {
 
 func ruleC16Globals(c *Checker) {
 	const R = "C16.globals"
-	c.rule(R, "No store outside package initialisation writes into storage reachable from a package-level variable (the variable itself, or the backing array / map / pointee of a reference loaded from it) in any function reachable from Pack, Unpack or the ignore-file parser; append aliases only its first argument. Earlier calls therefore cannot change later ones.", 1)
+	c.rule(R, "No store outside package initialisation writes into storage reachable from a package-level variable (the variable itself, the backing array / map / pointee of a reference loaded from it, or a sync / sync/atomic container kept in one, through its mutating methods) in any function reachable from Pack, Unpack or the ignore-file parser; append aliases only its first argument. Earlier calls therefore cannot change later ones.", 1)
 	p := c.P
 	entries := packSideEntries(p)
 	if len(entries) == 0 {
@@ -205,6 +205,24 @@ func ruleC16Globals(c *Checker) {
 				addr = x.Addr
 			case *ssa.MapUpdate:
 				addr = x.Map
+			case ssa.CallInstruction:
+				// a mutating method of a sync / sync/atomic container kept in a package-level variable
+				o := calleeObj(x)
+				if o == nil || (objPkgPath(o) != "sync" && objPkgPath(o) != "sync/atomic") || len(x.Common().Args) == 0 {
+					return
+				}
+				switch o.Name() {
+				case "Lock", "Unlock", "RLock", "RUnlock", "TryLock", "TryRLock", "Load", "Range", "Wait":
+					return
+				}
+				var roots []aliasRoot
+				p.aliasRoots(x.Common().Args[0], 6, map[ssa.Value]bool{}, &roots)
+				for _, r := range roots {
+					if r.Kind == "global" {
+						c.fail(R, p.FuncName(fn), "write into package state "+r.V.Name()+" through "+recvTypeName(o)+"."+o.Name(), p.Pos(in.Pos()), "a "+objPkgPath(o)+" container kept in package-level variable "+r.V.Name()+" is changed ("+o.Name()+"): what one call memoises, a later call — for another tree, another working directory, a rewritten file — reads back")
+					}
+				}
+				return
 			default:
 				return
 			}
